@@ -102,7 +102,7 @@ PROPS = {
     "C19": dict(
         cases_mod="CasesTz", check_fn="check_C19", shard=60,
         extra_rows_cmd=["python3", "lib/local_glue.py", "{bin}", "{tier}"],
-        rule="structure-aware mutations of valid synthesized files: every header count field x {0, 1, +1, -1, 2^31, 2^32-1, 255, 256} in either header, truncation at a random point, transition type index values {0,1,5,6,7,127,128,255}, version byte sweep, random byte flips, single-edit footer mutations over a POSIX-TZ alphabet, plus 48 hand-written hostile footers (month 0/13, week 0/6, day 7, J0, J366, 366, 365 in common years, 20-digit numbers, missing parts, over-range times, invalid UTF-8) on skeletons with and without transitions; lookups at 16 timestamps incl. both ends of the DateTime range. Outcome class (error / offsets / panic) compared with the model. Plus Offset::Local.resolve() itself with valid zone files and hostile contents bind-mounted over /etc/localtime in a private mount namespace (op tz_local; skipped where unshare is unavailable). Non-trivial: every case.",
+        rule="structure-aware mutations of valid synthesized files: every header count field x {0, 1, +1, -1, 2^31, 2^32-1, 255, 256} in either header, truncation at a random point, transition type index values {0,1,5,6,7,127,128,255}, version byte sweep of either header independently, random byte flips, single-edit footer mutations over a POSIX-TZ alphabet, plus 48 hand-written hostile footers (month 0/13, week 0/6, day 7, J0, J366, 366, 365 in common years, 20-digit numbers, missing parts, over-range times, invalid UTF-8) on skeletons with and without transitions; lookups at 16 timestamps incl. both ends of the DateTime range. Outcome class (error / offsets / panic) compared with the model. Plus Offset::Local.resolve() itself with valid zone files and hostile contents bind-mounted over /etc/localtime in a private mount namespace (op tz_local; skipped where unshare is unavailable). Non-trivial: every case.",
         explanation="Theorems of props/C19.v: no panic in the parser for any byte string, no panic in lookups on any accepted file (see file header).",
         trusted_base=TB_COMMON + ["hook H2 (cargo feature astrolabe_verif): tzif_offsets(bytes, timestamps)"],
         assumptions=ASSUME_COMMON + ["usize is 64 bits (length products cannot overflow)", "the Offset::Local -> /etc/localtime glue is modelled as resolve_local (file result, clock) and exercised in a private mount namespace by both tiers when unshare is available"],
@@ -115,19 +115,19 @@ PROPS = {
     ),
     "C12": dict(
         cases_mod="CasesText", check_fn="check_C12", shard=200,
-        rule='values x patterns from the unambiguous-field grammar (at most one field per value kind, one-letter numeric fields and y/yyy/yyyy followed by a non-digit literal or quoted text, no narrow names, period markers with 12-hour fields, zone symbols of every width, quoted separators); observed: format -> parse -> format and the parsed value. Non-trivial: every case.',
+        rule='values x patterns from the unambiguous-field grammar (at most one field per value kind; every combination of month / day of month / day of year next to a year; the hour as a 24-hour field, a 12-hour field with marker, a lone marker, a lone 12-hour field, or absent; one-letter numeric fields and y/yyy/yyyy followed by a non-digit literal or quoted text, no narrow names, zone symbols of every width or none, separators incl. 2-, 3- and 4-byte characters and characters sharing their low byte with a symbol letter, quoted separators) plus a symbol x width grid and a grid of partial patterns; observed: format -> parse -> format and the parsed value. Non-trivial: every case.',
         explanation="Proved for the model (props/C12.v, FieldProofs.v, RoundTrip.v): formatter and parser agree on every symbol and width (C12_date_symbols, C12_time_symbols) and on every item incl. multi-byte literals, quoted text and escaped apostrophes (C12_item); for DateTime values and unambiguous patterns carrying a full date, time of day and zone, parse(format(v,p),p) is Ok with the same offset and the same instant truncated to the written precision, and formatting it again reproduces the text (C12_datetime_partial); likewise for Date (full date) and Time (full time and zone) with their own parse loops (C12_date_partial, C12_time_partial); for patterns carrying any part of a date, any part of a time of day and a zone or none (month/day/day-of-year next to a year; era, quarter, week, weekday next to a full date; b next to hour, minute, second), parse(format(v,p),p) is Ok with the defaults 0001-01-01, 00:00:00, UTC filled in, valid, and formatting it again reproduces the text (C12_datetime_any, C12_date_any, C12_time_any). The run performs format -> parse -> format on the implementation for all three types.",
         trusted_base=TB_COMMON + ["serde / serde_json (C20) from the offline cargo cache"], assumptions=ASSUME_COMMON + ["the current year read by the two-letter year parser is a parameter (now_year) passed by the harness"],
     ),
     "C13": dict(
         cases_mod="CasesText", check_fn="check_C13", shard=200,
-        rule='write side: instants in years 1..=9999 x whole-minute offsets (0, +-1 min, +-23:59, random) x 5 precisions; read side: strings from the RFC 3339 ABNF with 1..40 fraction digits, Z or +-hh:mm, one third with a single field pushed out of range (month 00/13, day 00/30/31/32 incl. 29 Feb, hour 24, minute 60, second 60, offset 24:00 / 00:60, year 0000), plus hand-written malformed strings incl. multi-byte characters. Non-trivial: every case.',
+        rule='write side: instants in years 1..=9999 x whole-minute offsets (0, +-1 min, +-23:59, random) x 5 precisions; read side: strings from the RFC 3339 ABNF with 1..40 fraction digits, Z or +-hh:mm, one quarter placed so that the UTC time of day is 0, 1, 43200, 86398 or 86399 s (day carry / borrow), one third with a single field pushed out of range (month 00/13, day 00/30/31/32 incl. 29 Feb, hour 24, minute 60, second 60, offset 24:00 / 00:60, year 0000), plus hand-written malformed strings incl. multi-byte characters. Non-trivial: every case.',
         explanation="Proved for the model (props/C13.v, RfcProofs.v): every grammatical RFC 3339 timestamp (any number of fraction digits) with in-range fields is accepted with exactly the denoted instant and offset; one with an out-of-range field is rejected; no string panics; format_rfc3339 of a valid value (local year 1..9999, whole-minute offset, each precision) is grammatical, in range and denotes the value truncated to the precision; reading back what was written gives that. The run ties the model to the implementation.",
         trusted_base=TB_COMMON + ["serde / serde_json (C20) from the offline cargo cache"], assumptions=ASSUME_COMMON + ["the current year read by the two-letter year parser is a parameter (now_year) passed by the harness"],
     ),
     "C14": dict(
         cases_mod="CasesText", check_fn="check_C14", shard=200,
-        rule="(input, pattern) pairs: a seed-determined slice of the exhaustive product {19 symbols} x {width 1..5} x {all strings up to length 2 (thorough: 3) over 0 1 9 + - : . Z T a p m ' space e-acute euro emoji} x {Date, Time, DateTime}; composite patterns from the item grammar with single-edit mutations (deleted/inserted quotes, NUL, multi-byte), inputs produced by formatting then truncated / extended / damaged; format with every hostile pattern incl. lone and unbalanced apostrophes; parse_rfc3339, FromStr of all three types and CronSchedule::from_str on small and damaged strings. Dev profile = overflow checks on. Non-trivial: every case.",
+        rule="(input, pattern) pairs: a seed-determined slice of the exhaustive product {19 symbols} x {width 1..5} x {all strings up to length 2 (thorough: 3) over 0 1 9 + - : . Z T a p m ' space e-acute euro emoji} x {Date, Time, DateTime}; composite patterns from the item grammar with single-edit mutations (deleted/inserted quotes, NUL, multi-byte), inputs produced by formatting then truncated / extended / damaged; patterns of several (also repeated) fields each at the edge of its range - e.g. 23:59:59 followed by several fraction fields at their maxima; format with every hostile pattern incl. lone and unbalanced apostrophes; parse_rfc3339, FromStr of all three types and CronSchedule::from_str on small and damaged strings. Dev profile = overflow checks on. Non-trivial: every case.",
         explanation="Proved for the model (props/C14.v): Date/Time/DateTime::parse, parse_rfc3339 and the three from_str never reach Panic for any input and pattern text; every Ok is a valid value (day number in i32, time of day < 24 h, offset inside +-24 h, instant and local reading representable); format is Ok for every pattern and every valid value. CronSchedule::parse has no panic outcome in its model (option type) and is watched by the run only. The run ties the model's outcome class to the implementation's.",
         trusted_base=TB_COMMON + ["serde / serde_json (C20) from the offline cargo cache"], assumptions=ASSUME_COMMON + ["the current year read by the two-letter year parser is a parameter (now_year) passed by the harness"],
     ),
